@@ -71,8 +71,9 @@ PROPS = {
     "C11": dict(
         level="other",
         explanation="Inductive step of gated.Filter.Process / FlushAll / Close (with the real container/list code) from an arbitrary filter state under the representation invariant (<=G open groups with symbolic ids, expiry instants and 1..E events each), with symbolic clock, flush flag, compose outcome (plain / Gateable / error) and send outcome; ghost logs of compose and send calls decide exactly-once, order and whole-group composition.",
-        jobs=[dict(pkg="./filters/gated", harness=["gated/gated.go"], entries=r"^H_C11_|^H_C17_", params=dict(quick=dict(G=2, E=2), thorough=dict(G=3, E=2)), shards=dict(quick=4, thorough=16))],
-        must_reach=["C11.process.flush", "C11.process.gated", "C11.process.error", "C11.passthrough.plain", "C11.passthrough.noid", "C17.flushall.ok", "C17.flushall.error"],
+        jobs=[dict(pkg="./filters/gated", harness=["gated/gated.go", "gated/concurrent.go"], entries=r"^H_C11_|^H_C17_", params=dict(quick=dict(G=2, E=2, GC=1, EC=1), thorough=dict(G=3, E=2, GC=2, EC=2)), shards=dict(quick=4, thorough=16, H_C11_concurrent=16),
+                   maxswitches=dict(quick=3, thorough=4), instrument_locks=True)],
+        must_reach=["C11.process.flush", "C11.process.gated", "C11.process.error", "C11.passthrough.plain", "C11.passthrough.noid", "C17.flushall.ok", "C17.flushall.error", "C11.concurrent.end"],
         bounds=dict(quick="<=2 open groups x 1..2 events", thorough="<=3 groups x 1..2 events"),
         assumptions=["A-gated-mono: NowFunc non-decreasing and Expiration constant while groups are open (expiry instants non-decreasing along the list)"],
         trusted_base=COMMON_TRUST,
